@@ -318,6 +318,43 @@ pub fn run(ctx: &Ctx) {
             }
         }));
     }
+    // "with fewer than n bytes available it reports incomplete" for the ids of a message: the buffer
+    // ends inside each id field, with and without junk in front of the storage header, with and
+    // without a filter
+    {
+        let junks: Vec<Vec<u8>> = vec![vec![], b"X".to_vec(), b"DL".to_vec(), vec![0u8; 5], vec![0x58; 17], b"DLT".repeat(7)];
+        let sp = Space::new(&[4, 4, junks.len(), 2, 2]);
+        let s2 = sp.clone();
+        let junks = &junks;
+        ctx.run_family(Family::new("c19.id_fields_cut_short", sp.size(), "a message cut after 0..=3 bytes of each of its id fields (storage ECU, header ECU, APID, CTID) x 6 junk strings in front of the storage header (none, short, partial patterns, longer than a storage header) x storage / no storage mode x filter: the parser reports incomplete, any size hint being no larger than the bytes missing from the message", move |i, loc| {
+            let c = s2.coords(i);
+            let storage_mode = c[3] == 1;
+            if !storage_mode && (c[1] == 0 || c[2] != 0) {
+                return; // no storage header: no storage ECU id and no junk skipping
+            }
+            let m = msg_with(0x04, 1, Some(ext(MSTP_LOG, 4, "APP", "CTX")), payload_for(true, Some(MSTP_LOG), 0), if storage_mode { Some(storage(1, 2, "ECU")) } else { None });
+            let (b, sites) = encode(&m);
+            let label = ["storage_ecu", "ecu", "apid", "ctid"][c[1]];
+            let (o, _, _) = *sites.sites.iter().find(|s| s.2 == label).unwrap();
+            let cut = o + c[0];
+            let mut input = junks[c[2]].clone();
+            input.extend_from_slice(&b[..cut]);
+            let missing = b.len() - cut;
+            let filter = if c[4] == 1 { Some(dlt_core::filtering::ProcessedDltFilterConfig { min_log_level: None, app_ids: None, ecu_ids: Some(["ECU1".to_string(), "ECU".to_string()].into_iter().collect()), context_ids: None, app_id_count: 0, context_id_count: 0 }) } else { None };
+            loc.evals += 1;
+            loc.transitions += 1;
+            loc.traces += 1;
+            loc.state(i + 0x1900_0000, true);
+            let details = || json!({"input_hex": hex_short(&input), "field": label, "bytes_of_field_present": c[0], "junk_len": junks[c[2]].len()});
+            match catch(|| dlt_message(&input, filter.as_ref(), storage_mode).map(|(rest, pm)| (rest.len(), format!("{:?}", pm).chars().take(80).collect::<String>()))) {
+                Ok(Err(dlt_core::parse::DltParseError::IncompleteParse { needed })) => match needed {
+                    Some(n) if n.get() > missing => loc.violation("size hint larger than the shortfall", format!("{} cut after {} of its 4 bytes ({} junk bytes in front): hint {} but only {} bytes are missing", label, c[0], junks[c[2]].len(), n, missing), details()),
+                    _ => loc.outcome("incomplete"),
+                },
+                other => loc.violation("id field cut short is not reported as incomplete", format!("{} cut after {} of its 4 bytes ({} junk bytes in front, storage mode {}, filter {}): {:?}", label, c[0], junks[c[2]].len(), storage_mode, c[4] == 1, other), details()),
+            }
+        }));
+    }
     // ids of a message obey the same rule
     {
         let sp = Space::new(&[4096, 4, 2]);
